@@ -69,22 +69,22 @@ macro_rules! vassume {
 // harness!(name, unwind = K, stubs = [a => b, ...], body);   modular harness (callees replaced by contract stubs)
 #[cfg(kani)]
 macro_rules! harness {
-    ($name:ident, unwind = $u:expr, $body:expr) => {
-        #[kani::proof]
-        #[kani::unwind($u)]
-        pub fn $name() { let mut s = $crate::verif_kani::src::KaniSrc; ($body)(&mut s); }
-    };
     ($name:ident, unwind = $u:expr, stubs = [$($a:path => $b:path),* $(,)?], $body:expr) => {
         #[kani::proof]
         #[kani::unwind($u)]
         $(#[kani::stub($a, $b)])*
         pub fn $name() { let mut s = $crate::verif_kani::src::KaniSrc; ($body)(&mut s); }
     };
+    ($name:ident, unwind = $u:expr, $body:expr) => {
+        #[kani::proof]
+        #[kani::unwind($u)]
+        pub fn $name() { let mut s = $crate::verif_kani::src::KaniSrc; ($body)(&mut s); }
+    };
 }
 #[cfg(not(kani))]
 macro_rules! harness {
-    ($name:ident, unwind = $u:expr, $body:expr) => {};
     ($name:ident, unwind = $u:expr, stubs = [$($a:path => $b:path),* $(,)?], $body:expr) => {};
+    ($name:ident, unwind = $u:expr, $body:expr) => {};
 }
 
 // ---------------------------------------------------------------------------------- replay
